@@ -1,13 +1,31 @@
 /-
 C12 — Read filtering keeps exactly the k-mers seen min-count times at passing quality.
-First theorems; `T12_nofn` / `T12_exact` are being added.
+
+Level of these theorems: the count filter (`KmerFilter`) driven by the sequence of hash
+values, and the dictionary fold over the abstract observation stream
+`(hash, kmer, base, palin)`; `addReadState` / `addRead` / `buildReads` are shown to be exactly
+that fold over the quality-passing iterator states (`T12_buildReads`). Not done here: the
+identification of that stream with `Spec.readObservations` (iterator theory, C01/C02).
+
+Summary
+* `bloom_no_false_negative` — Bloom bits are only ever set.
+* `filter_count_semantics`  — under `NoFP` (no Bloom false positive among the observed hashes)
+  the `i`-th observation passes iff `passSpec minCount (occ hs i)`.
+* `T12_exact_filter`        — under `NoFP`, a hash passes iff it occurs `≥ max 1 minCount` times.
+* `T12_nofn_filter`         — without `NoFP`: a hash occurring `≥ minCount` times passes.
+* `hash_collision_loses_kmer` — but a *k-mer* can be lost when another k-mer shares its hash.
+* `T12_dict`, `T12_buildReads` — dictionary level.
+
+Findings recorded as theorems: `minCount_65535_passes_repeatedly`, `minCount_above_u16_never`,
+`stale_counts_lose`, `hash_collision_loses_kmer`.
 -/
 import SkaModel.Impl.Reads
 import SkaModel.Spec.ReadsSpec
+import SkaModel.Lemmas.KFDict
 
 namespace SkaModel.Props.C12
 
-open SkaModel
+open SkaModel SkaModel.KF
 
 /-- with `--min-count` 0 or 1 the count filter passes every observation and keeps no state -/
 theorem T12_mincount_one (f : KmerFilter) (h : f.minCount ≤ 1) (hash : Nat) :
@@ -29,5 +47,332 @@ theorem T12_bloom_second (f : KmerFilter) (key : Nat) :
       simp only [Nat.testBit_and, Nat.testBit_or]
       cases (f.buffer.getD (KmerFilter.location key) 0).testBit i <;> cases (KmerFilter.fingerprint key).testBit i <;> rfl
     simp [this]
+
+/-! ## 1. Bloom layer -/
+
+/-- the check reports exactly the invariant `BloomHas` -/
+theorem bloom_check_iff (f : KmerFilter) (key : Nat) :
+    (f.bloomAddAndCheck key).2 = true ↔ BloomHas f key := bloom_snd_true f key
+
+/-- `bloomAddAndCheck key` establishes `BloomHas · key` -/
+theorem bloomHas_established (f : KmerFilter) (key : Nat) :
+    BloomHas (f.bloomAddAndCheck key).1 key := bloomHas_establish f key
+
+/-- `bloomAddAndCheck key'` preserves `BloomHas · key`, for every `key'` -/
+theorem bloomHas_preserved_bloom (f : KmerFilter) (key key' : Nat) (h : BloomHas f key) :
+    BloomHas (f.bloomAddAndCheck key').1 key := bloomHas_bloom f key key' h
+
+/-- `filter h` preserves `BloomHas · key`, for every `h` (and every `minCount`) -/
+theorem bloomHas_preserved_filter (f : KmerFilter) (key h : Nat) (hk : BloomHas f key) :
+    BloomHas (f.filter h).1 key := bloomHas_filter f key h hk
+
+/-- Bloom words only grow: any bit pattern `w` contained in a word stays contained -/
+theorem bloom_words_grow (f : KmerFilter) (key loc w : Nat)
+    (h : f.buffer.getD loc 0 &&& w = w) :
+    (f.bloomAddAndCheck key).1.buffer.getD loc 0 &&& w = w := bloom_buffer_mono f key loc w h
+
+/-- **No Bloom false negative**: once `bloomAddAndCheck key` has been executed, every later
+`bloomAddAndCheck key`, after any sequence `ops` of Bloom steps and `filter` calls, is `true` -/
+theorem bloom_no_false_negative (f : KmerFilter) (key : Nat) (ops : List Op) :
+    ((applyOps (f.bloomAddAndCheck key).1 ops).bloomAddAndCheck key).2 = true :=
+  KF.bloom_no_false_negative f key ops
+
+/-! ## 2. Exact semantics under `NoFP` -/
+
+/-- `NoFP m hs` says: for every prefix of `hs`, the Bloom check of the next hash, in the
+state the fresh filter reaches after that prefix, reports "seen" only if the hash occurs in
+the prefix -/
+theorem NoFP_iff (m : Nat) (hs : List Nat) :
+    NoFP m hs ↔
+      ∀ i (hi : i < hs.length),
+        ((runFilter { minCount := m } (hs.take i)).1.bloomAddAndCheck hs[i]).2 = true →
+          hs[i] ∈ hs.take i := noFP_iff_prefix m hs
+
+/-- `occ hs i` counts the earlier occurrences of `hs[i]` -/
+theorem occ_eq (hs : List Nat) (i : Nat) (hi : i < hs.length) :
+    occ hs i = (hs.take i).count hs[i] := by
+  simp [occ, List.getElem?_eq_getElem hi]
+
+/-- **Count semantics** (fresh filter, `NoFP`): observation `i` passes iff
+`passSpec minCount (occ hs i)`, where `passSpec m n` is `true` for `m ≤ 1`, `1 ≤ n` for
+`m = 2`, and `min (n+1) 65535 = m` for `m ≥ 3`. -/
+theorem filter_count_semantics (m : Nat) (hs : List Nat) (hfp : NoFP m hs)
+    (i : Nat) (hi : i < hs.length) :
+    (runFilter { minCount := m } hs).2[i]'(by simpa using hi) = passSpec m (occ hs i) := by
+  have h1 : (runFilter { minCount := m } hs).2[i]? = some (passSpec m (occ hs i)) := by
+    rw [runFilter_fresh m hs hfp, specRun_nil_getElem?, List.getElem?_eq_getElem hi]
+    rfl
+  exact (List.getElem?_eq_some_iff.1 h1).2
+
+/-- `minCount ≤ 1`: always passes (no hypothesis needed) -/
+theorem filter_count_semantics_le_one (m : Nat) (hm : m ≤ 1) (hs : List Nat) (hfp : NoFP m hs)
+    (i : Nat) (hi : i < hs.length) :
+    (runFilter { minCount := m } hs).2[i]'(by simpa using hi) = true := by
+  rw [filter_count_semantics m hs hfp i hi, passSpec_le_one m _ hm]
+
+/-- `minCount = 2`: passes iff the hash occurred before -/
+theorem filter_count_semantics_two (hs : List Nat) (hfp : NoFP 2 hs)
+    (i : Nat) (hi : i < hs.length) :
+    (runFilter { minCount := 2 } hs).2[i]'(by simpa using hi) = decide (1 ≤ occ hs i) := by
+  rw [filter_count_semantics 2 hs hfp i hi, passSpec_two]
+
+/-- `3 ≤ minCount < 65535`: passes iff it is exactly the `minCount`-th occurrence -/
+theorem filter_count_semantics_ge_three (m : Nat) (h3 : 3 ≤ m) (hm : m < 65535)
+    (hs : List Nat) (hfp : NoFP m hs) (i : Nat) (hi : i < hs.length) :
+    (runFilter { minCount := m } hs).2[i]'(by simpa using hi) = decide (occ hs i + 1 = m) := by
+  rw [filter_count_semantics m hs hfp i hi, passSpec_ge_three m _ h3 hm]
+
+/-- FINDING. `minCount = 65535` (the largest `u16`): the saturated count keeps comparing equal
+to `minCount`, so *every* occurrence from the 65535-th on passes, not only the 65535-th.
+(Harmless for the dictionary as long as adding a base twice is idempotent.) -/
+theorem minCount_65535_passes_repeatedly (hs : List Nat) (hfp : NoFP 65535 hs)
+    (i : Nat) (hi : i < hs.length) :
+    (runFilter { minCount := 65535 } hs).2[i]'(by simpa using hi)
+      = decide (65535 ≤ occ hs i + 1) := by
+  rw [filter_count_semantics 65535 hs hfp i hi, passSpec_sat]
+
+/-- a `minCount` above the `u16` range would never pass anything (the CLI type excludes it) -/
+theorem minCount_above_u16_never (m : Nat) (hm : 65535 < m) (hs : List Nat) (hfp : NoFP m hs)
+    (i : Nat) (hi : i < hs.length) :
+    (runFilter { minCount := m } hs).2[i]'(by simpa using hi) = false := by
+  rw [filter_count_semantics m hs hfp i hi, passSpec_above m _ hm]
+
+/-- **T12_exact_filter**: under `NoFP`, for `minCount ≤ 65535`, a hash passes at least once in
+the run iff it occurs at least `max 1 minCount` times -/
+theorem T12_exact_filter (m : Nat) (hm : m ≤ 65535) (hs : List Nat) (hfp : NoFP m hs) (h : Nat) :
+    (∃ i : Nat, hs[i]? = some h ∧ (runFilter { minCount := m } hs).2[i]? = some true)
+      ↔ max 1 m ≤ hs.count h := by
+  rw [runFilter_fresh m hs hfp]
+  exact spec_exact m hm h hs
+
+/-- … and for `3 ≤ minCount < 65535` it passes exactly once -/
+theorem T12_exact_filter_unique (m : Nat) (h3 : 3 ≤ m) (hm : m < 65535) (hs : List Nat)
+    (hfp : NoFP m hs) (h : Nat) (i j : Nat)
+    (hi : hs[i]? = some h) (hj : hs[j]? = some h)
+    (pi : (runFilter { minCount := m } hs).2[i]? = some true)
+    (pj : (runFilter { minCount := m } hs).2[j]? = some true) : i = j := by
+  rw [runFilter_fresh m hs hfp] at pi pj
+  exact spec_unique m h3 hm h hs i j hi hj pi pj
+
+/-! ## 3. No false negatives without `NoFP` -/
+
+/-- **T12_nofn_filter**: empty count table, ARBITRARY Bloom content, arbitrary hash list, no
+hypothesis about Bloom false positives: for `2 ≤ minCount ≤ 65535`, a hash that occurs at
+least `minCount` times passes at least once. -/
+theorem T12_nofn_filter (f : KmerFilter) (hc : f.counts = {}) (h2 : 2 ≤ f.minCount)
+    (hmax : f.minCount ≤ 65535) (h : Nat) (hs : List Nat) (hocc : f.minCount ≤ hs.count h) :
+    ∃ i : Nat, hs[i]? = some h ∧ (runFilter f hs).2[i]? = some true := by
+  by_cases hm : f.minCount = 2
+  · exact nofn_two f hm h hs (by omega)
+  · exact nofn_ge_three f hc (by omega) hmax h hs hocc
+
+/-- … and (for `3 ≤ minCount < 65535`) a pass can only happen at the `minCount`-th or, after
+a Bloom false positive on the first occurrence, the `(minCount−1)`-th occurrence -/
+theorem T12_pass_position (f : KmerFilter) (hc : f.counts = {}) (h3 : 3 ≤ f.minCount)
+    (hmax : f.minCount < 65535) (hs : List Nat) (i : Nat) (h : Nat) (hi : hs[i]? = some h)
+    (hp : (runFilter f hs).2[i]? = some true) :
+    (hs.take i).count h + 1 = f.minCount ∨ (hs.take i).count h + 2 = f.minCount :=
+  pass_position f hc h3 hmax hs i h hi hp
+
+/-- the count table must start empty: with a stale entry `≥ minCount` the hash never passes,
+however often it occurs -/
+theorem stale_counts_lose (hs : List Nat) (f : KmerFilter) (h : Nat) (h3 : 3 ≤ f.minCount)
+    (hmax : f.minCount < 65535) (hv : f.minCount ≤ val f h) :
+    ¬ ∃ i : Nat, hs[i]? = some h ∧ (runFilter f hs).2[i]? = some true := by
+  induction hs generalizing f with
+  | nil => simp
+  | cons x xs ih =>
+    rintro ⟨i, hi, hp⟩
+    cases i with
+    | zero =>
+      simp only [List.getElem?_cons_zero, Option.some.injEq, runFilter_cons] at hi hp
+      subst hi
+      rw [filter_snd] at hp
+      have h1 : ¬ f.minCount ≤ 1 := by omega
+      have h2 : ¬ f.minCount = 2 := by omega
+      simp only [h1, h2, ↓reduceIte, Bool.and_eq_true, decide_eq_true_eq, beq_iff_eq,
+        newCount_eq] at hp
+      omega
+    | succ i =>
+      simp only [List.getElem?_cons_succ, runFilter_cons] at hi hp
+      refine ih (f.filter x).1 (by simpa using h3) (by simpa using hmax) ?_ ⟨i, hi, hp⟩
+      rw [filter_minCount, val_filter]
+      split
+      · rename_i hc
+        obtain ⟨_, _, rfl⟩ := hc
+        omega
+      · exact hv
+
+example : ∃ f : KmerFilter, f.minCount = 3 ∧ f.minCount ≤ val f 7 :=
+  ⟨{ minCount := 3, counts := (∅ : Std.HashMap Nat Nat).insert 7 5 }, rfl, by
+    simp [val]⟩
+
+/-! ### a shared hash value loses a k-mer -/
+
+/-- observations of k-mer `X` (split k-mer 1, middle base A) and `Y` (split k-mer 2, middle
+base C) with the SAME hash value 7 -/
+def oX : Obs := { hash := 7, kmer := 1, base := 0, palin := false }
+def oY : Obs := { hash := 7, kmer := 2, base := 1, palin := false }
+
+/-- the flags of the real filter on four equal hashes, `minCount = 3`: only the third passes -/
+theorem flags_collision :
+    (runFilter { minCount := 3 } [7, 7, 7, 7]).2 = [false, false, true, false] := by
+  rw [runFilter_fresh 3 [7, 7, 7, 7] (noFP_replicate 3 7 4)]
+  decide
+
+/-- **hash_collision_loses_kmer**: `minCount = 3`, observations `X, X, Y, X` with one hash
+value. `X` occurs three times, `Y` once; the filter passes the third observation, which is
+`Y`'s. The resulting dictionary contains `Y` (which should be absent) and not `X` (which
+should be present). "A k-mer that reaches the count is never lost" therefore needs the hash
+to be injective on the observed k-mers, not only Bloom soundness. -/
+theorem hash_collision_loses_kmer :
+    ∃ d f, runObs ([], { minCount := 3 }) [oX, oX, oY, oX] = some (d, f) ∧
+      d.map (·.1) = [2] ∧ d.lookup 1 = none ∧
+      ([oX, oX, oY, oX].map obsClass).count (obsClass oX) = 3 := by
+  refine ⟨[(2, decodeBase 1)], (runFilter { minCount := 3 } [7, 7, 7, 7]).1, ?_, by decide, by decide,
+    by decide⟩
+  rw [runObs_eq]
+  show Option.map _ (List.foldlM addObs [] (kept _ (runFilter _ [7, 7, 7, 7]).2)) = _
+  rw [flags_collision]
+  rfl
+
+/-! ## 4. Dictionary level -/
+
+/-- **T12_dict** (abstract stream). If on the observed stream two observations have the same
+hash exactly when they have the same class `cls` (`HashFaithful`), and there is no Bloom false
+positive, then the dictionary is obtained by adding, in order, exactly the observations
+selected by the occurrence-count rule on CLASSES: `specRun m [] (os.map cls)`. -/
+theorem T12_dict {γ : Type} [DecidableEq γ] (cls : Obs → γ) (m : Nat) (os : List Obs)
+    (hfaith : HashFaithful cls os) (hfp : NoFP m (os.map (·.hash))) (d : Assoc Nat UInt8) :
+    runObs (d, { minCount := m }) os =
+      ((kept os (specRun m [] (os.map cls))).foldlM addObs d).map
+        (fun d' => (d', (runFilter { minCount := m } (os.map (·.hash))).1)) := by
+  rw [runObs_eq, runFilter_fresh m _ hfp]
+  have := specRun_map_congr m (fun o : Obs => o.hash) cls os [] (by simpa [HashFaithful] using hfaith)
+  simp only [List.map_nil] at this
+  rw [this]
+
+/-- observation `i` is added iff the occurrence-count rule holds for its class -/
+theorem T12_dict_added {γ : Type} [DecidableEq γ] (cls : Obs → γ) (m : Nat) (os : List Obs)
+    (o : Obs) :
+    o ∈ kept os (specRun m [] (os.map cls)) ↔
+      ∃ i : Nat, os[i]? = some o ∧ passSpec m (occ (os.map cls) i) = true := by
+  rw [mem_kept]
+  constructor
+  · rintro ⟨i, hi, hp⟩
+    refine ⟨i, hi, ?_⟩
+    rw [specRun_nil_getElem?, List.getElem?_map, hi] at hp
+    simpa using hp
+  · rintro ⟨i, hi, hp⟩
+    refine ⟨i, hi, ?_⟩
+    rw [specRun_nil_getElem?, List.getElem?_map, hi]
+    simp [hp]
+
+/-- the set of classes that are ever added = the classes occurring `≥ max 1 minCount` times -/
+theorem T12_dict_classes {γ : Type} [DecidableEq γ] (cls : Obs → γ) (m : Nat) (hm : m ≤ 65535)
+    (os : List Obs) (c : γ) :
+    (∃ o ∈ kept os (specRun m [] (os.map cls)), cls o = c) ↔ max 1 m ≤ (os.map cls).count c := by
+  rw [← spec_exact m hm c (os.map cls)]
+  unfold PassesIn
+  constructor
+  · rintro ⟨o, hmem, rfl⟩
+    obtain ⟨i, hi, hp⟩ := (mem_kept _ _ _).1 hmem
+    exact ⟨i, by rw [List.getElem?_map, hi]; rfl, hp⟩
+  · rintro ⟨i, hi, hp⟩
+    rw [List.getElem?_map] at hi
+    cases ho : os[i]? with
+    | none => rw [ho] at hi; simp at hi
+    | some o =>
+      rw [ho] at hi
+      simp only [Option.map_some, Option.some.injEq] at hi
+      exact ⟨o, (mem_kept _ _ _).2 ⟨i, ho, hp⟩, hi⟩
+
+/-- all observations the read branch presents to the filter, both files in order -/
+def allObs (W k : Nat) (rc : Bool) (minQual : Nat) (qf : QualFilter) (file1 file2 : List Read) :
+    List Obs :=
+  (file1 ++ file2).flatMap (readObs W k rc minQual qf)
+
+/-- **T12_buildReads**: `buildReads` (both files through one filter, `addRead`,
+`addReadState`, `SKConf.states`) under `HashFaithful` + `NoFP` on its observation stream:
+the dictionary consists of exactly the observations selected by class counts. -/
+theorem T12_buildReads {γ : Type} [DecidableEq γ] (cls : Obs → γ) (W k : Nat) (rc : Bool)
+    (minCount minQual : Nat) (qf : QualFilter) (file1 file2 : List Read)
+    (hfaith : HashFaithful cls (allObs W k rc minQual qf file1 file2))
+    (hfp : NoFP minCount ((allObs W k rc minQual qf file1 file2).map (·.hash))) :
+    buildReads W k rc minCount minQual qf file1 file2 =
+      match (kept (allObs W k rc minQual qf file1 file2)
+          (specRun minCount [] ((allObs W k rc minQual qf file1 file2).map cls))).foldlM addObs [] with
+      | none => .panicked
+      | some [] => .noValid
+      | some d => .dict (sortByKey (·.1) d) := by
+  rw [buildReads_eq]
+  show (match runObs ([], { minCount := minCount }) (allObs W k rc minQual qf file1 file2) with
+    | none => BuildResult.panicked
+    | some ([], _) => BuildResult.noValid
+    | some (d, _) => BuildResult.dict (sortByKey (·.1) d)) = _
+  rw [T12_dict cls minCount _ hfaith hfp []]
+  cases (kept (allObs W k rc minQual qf file1 file2)
+      (specRun minCount [] ((allObs W k rc minQual qf file1 file2).map cls))).foldlM addObs [] with
+  | none => rfl
+  | some d => cases d <;> rfl
+
+/-! ## 5. Non-vacuity -/
+
+-- the specification on small hash lists
+example : specRun 1 [] [5, 9, 5, 5, 9] = [true, true, true, true, true] := by decide
+example : specRun 2 [] [5, 9, 5, 5, 9] = [false, false, true, true, true] := by decide
+example : specRun 3 [] [5, 9, 5, 5, 9, 9] = [false, false, false, true, false, true] := by decide
+example : specRun 4 [] [5, 9, 5, 5, 9, 5, 5] = [false, false, false, false, false, true, false] := by
+  decide
+example : occ [5, 9, 5, 5, 9] 3 = 2 := by decide
+example : passSpec 65535 65534 = true ∧ passSpec 65535 70000 = true ∧ passSpec 65535 65533 = false := by
+  decide
+
+-- the real filter on a constant hash list (`NoFP` holds: `noFP_replicate`)
+example : (runFilter { minCount := 1 } [7, 7, 7, 7, 7]).2 = [true, true, true, true, true] := by
+  rw [runFilter_fresh 1 [7, 7, 7, 7, 7] (noFP_replicate 1 7 5)]; decide
+example : (runFilter { minCount := 2 } [7, 7, 7, 7, 7]).2 = [false, true, true, true, true] := by
+  rw [runFilter_fresh 2 [7, 7, 7, 7, 7] (noFP_replicate 2 7 5)]; decide
+example : (runFilter { minCount := 3 } [7, 7, 7, 7, 7]).2 = [false, false, true, false, false] := by
+  rw [runFilter_fresh 3 [7, 7, 7, 7, 7] (noFP_replicate 3 7 5)]; decide
+example : (runFilter { minCount := 4 } [7, 7, 7, 7, 7]).2 = [false, false, false, true, false] := by
+  rw [runFilter_fresh 4 [7, 7, 7, 7, 7] (noFP_replicate 4 7 5)]; decide
+
+-- `NoFP` on distinct hashes, from the real `location` / `fingerprint` arithmetic
+theorem not_bloomHas_5_9 : ¬ BloomHas (({ minCount := 3 } : KmerFilter).filter 5).1 9 := by
+  unfold BloomHas
+  rw [filter_buffer]
+  simp only [show ¬ (3 ≤ 1) by omega, ↓reduceIte]
+  rw [bloom_buffer_getD]
+  simp only [Std.HashMap.getD_empty]
+  decide
+
+theorem noFP_example : NoFP 3 [5, 9, 5, 5, 9, 9] := by
+  refine ⟨fun hb => absurd hb (not_bloomHas_empty _ rfl 5), fun hb => absurd hb not_bloomHas_5_9,
+    fun _ => by decide, fun _ => by decide, fun _ => by decide, fun _ => by decide, trivial⟩
+
+example : (runFilter { minCount := 3 } [5, 9, 5, 5, 9, 9]).2
+    = [false, false, false, true, false, true] := by
+  rw [runFilter_fresh 3 _ noFP_example]; decide
+
+/-- a Bloom false positive on the first occurrence lets a hash seen only `minCount − 1` times
+through (the "can only enter through collisions of the counting filter" clause is sharp):
+`minCount = 3`, two occurrences, second one passes -/
+theorem bloom_fp_passes_early (f : KmerFilter) (h : Nat) (hm : f.minCount = 3)
+    (hc : f.counts = {}) (hb : BloomHas f h) : (runFilter f [h, h]).2 = [false, true] := by
+  have hv : val f h = 1 := by simp [val, hc]
+  have hb' : BloomHas (f.filter h).1 h := bloomHas_filter f h h hb
+  have hv' : val (f.filter h).1 h = 2 := by
+    rw [val_filter]; simp [hm, hb, hv]
+  simp only [runFilter_cons, runFilter_nil, filter_snd, filter_minCount, hm, newCount_eq, hv, hv',
+    hb, hb']
+  decide
+
+example : ∃ f : KmerFilter, f.minCount = 3 ∧ f.counts = {} ∧ BloomHas f 7 :=
+  ⟨{ minCount := 3, buffer := (∅ : Std.HashMap Nat Nat).insert (KmerFilter.location 7) (2 ^ 64 - 1) },
+    rfl, rfl, by
+      unfold BloomHas
+      simp only [Std.HashMap.getD_insert, beq_self_eq_true, ↓reduceIte]
+      decide⟩
 
 end SkaModel.Props.C12
